@@ -294,4 +294,189 @@ theorem nodup_flatten_of : ∀ (L : List (List Nat)),
       have : (a :: L)[u + 1]? = some b := by simp [hub, hu]
       exact h2 0 (u + 1) a b (by omega) (by simp) this v hv hvb
 
+/-! ### `assembleAll` cannot fail on what `runPar` returns -/
+
+theorem mapM_opt_cons {α β : Type} (f : α → Option β) (a : α) (l : List α) (r : List β) :
+    (a :: l).mapM f = some r ↔ ∃ b bs, f a = some b ∧ l.mapM f = some bs ∧ r = b :: bs := by
+  simp only [List.mapM_cons]
+  cases f a with
+  | none => simp
+  | some b =>
+    cases l.mapM f with
+    | none => simp
+    | some bs => simp [eq_comm]
+
+theorem assemble_some (g : Cfg) (w : World) (i : Nat) (cp : List Char) :
+    ∀ (reqs : List ParReq) (need : List Bool) (nums : List Nat),
+      reqs.mapM (needsId g w i) = some need → nums.length = (need.filter id).length →
+      ∃ o, assemble g cp reqs nums = some o := by
+  intro reqs
+  induction reqs with
+  | nil =>
+    intro need nums h hl
+    simp at h; subst h
+    simp at hl; subst hl
+    exact ⟨[], rfl⟩
+  | cons r reqs ih =>
+    intro need nums h hl
+    obtain ⟨b, bs, hb, hbs, rfl⟩ := (mapM_opt_cons _ _ _ _).mp h
+    obtain ⟨c, hs⟩ := r
+    unfold needsId at hb
+    split at hb
+    · rename_i cn hcn
+      split at hb
+      · simp only [Option.some.injEq] at hb
+        unfold assemble
+        by_cases hany : hs.any (fun kv => g.test.holds kv.1) = true
+        · simp only [hany, if_true]
+          have : b = false := by rw [← hb]; simp [hany]
+          subst this
+          obtain ⟨o, ho⟩ := ih bs nums hbs (by simpa using hl)
+          exact ⟨hs :: o, by simp [ho]⟩
+        · have hf : hs.any (fun kv => g.test.holds kv.1) = false := by simpa using hany
+          have : b = true := by rw [← hb]; simp [hf]
+          subst this
+          simp only [hf, Bool.false_eq_true, if_false]
+          cases nums with
+          | nil => simp at hl
+          | cons v nums =>
+            obtain ⟨o, ho⟩ := ih bs nums hbs (by simpa using hl)
+            exact ⟨setHeader hs g.name (render cp g.fmt v) :: o, by simp [ho]⟩
+      · cases hb
+    · cases hb
+
+theorem assembleAll_some (g : Cfg) (w : World) (i : Nat) (cp : List Char) :
+    ∀ (threads : List (List ParReq)) (need : List (List Bool)) (nums : List (List Nat)),
+      threads.mapM (fun t => t.mapM (needsId g w i)) = some need →
+      nums.length = need.length →
+      (∀ (t n : Nat), (need.map fun t => (t.filter id).length)[t]? = some n →
+        ∃ l : List Nat, nums[t]? = some l ∧ l.length = n) →
+      ∃ out, assembleAll g cp threads nums = some out := by
+  intro threads
+  induction threads with
+  | nil =>
+    intro need nums h hl _
+    simp at h; subst h
+    simp at hl; subst hl
+    exact ⟨[], rfl⟩
+  | cons t ts ih =>
+    intro need nums h hl hn
+    obtain ⟨b, bs, hb, hbs, rfl⟩ := (mapM_opt_cons _ _ _ _).mp h
+    cases nums with
+    | nil => simp at hl
+    | cons l ls =>
+      obtain ⟨l0, hl0, hlen⟩ := hn 0 (b.filter id).length (by simp)
+      simp at hl0; subst hl0
+      obtain ⟨o, ho⟩ := assemble_some g w i cp t b l hb hlen
+      obtain ⟨os, hos⟩ := ih bs ls hbs (by simpa using hl)
+        (fun t n htn => by
+          obtain ⟨l', h1, h2⟩ := hn (t + 1) n (by simpa using htn)
+          exact ⟨l', by simpa using h1, h2⟩)
+      exact ⟨o :: os, by simp [assembleAll, ho, hos]⟩
+
+/-! ### histories -/
+
+/-- what a caller can do with connections, one after the other -/
+inductive Op where
+  | newImpl (cp : List Char) (ids : Bool)
+  | wrap (c : Nat) (cls : List Char) (ad : Option Adapter)
+  | newDict (hs : Headers)
+  | req (c : Nat) (src : HdrSrc) (hasData : Bool)
+  | batch (c : Nat) (threads : List (List ParReq)) (sched : List (Nat × Nat))
+
+/-- generated ids that were sent: (implementation object, what went out under the id header) -/
+abbrev IdLog := List (Nat × Option (List Char))
+
+def ctrOf (impls : List Impl) (i : Nat) : Option Nat :=
+  match impls[i]? with
+  | some im => im.ctr
+  | none => none
+
+/-- one operation; an operation that raises leaves everything as it was.  A sequential request is
+logged when it moved the counter of its implementation object (it took a number); a batch of
+concurrent requests (what `World.par` does: adapters, then `parCore`) logs the ids of its requests
+that brought none. -/
+def histStep (g : Cfg) (st : World × IdLog) : Op → World × IdLog
+  | .newImpl cp ids => ((st.1.newImpl cp ids).1, st.2)
+  | .wrap c cls ad =>
+    match st.1.wrap g c cls ad with
+    | .ok (w', _) => (w', st.2)
+    | .error _ => st
+  | .newDict hs => ((st.1.newDict hs).1, st.2)
+  | .req c src d =>
+    match st.1.conns[c]?, st.1.request g c src d with
+    | some cn, .ok (w', hs') =>
+      (w', if ctrOf w'.impls cn.impl = ctrOf st.1.impls cn.impl then st.2
+           else st.2 ++ [(cn.impl, sentId g.name hs')])
+    | _, _ => st
+  | .batch c threads sched =>
+    match st.1.conns[c]? with
+    | none => st
+    | some cn =>
+      match threads.mapM (fun t => t.mapM (adaptReq st.1)) with
+      | .error _ => st
+      | .ok threads' =>
+        match st.1.parCore g cn.impl threads' sched with
+        | .error _ => st
+        | .ok (w', out) =>
+          (w', if (ctrOf st.1.impls cn.impl).isSome then
+                 st.2 ++ ((threads'.zip out).flatMap fun to => sentAuto g to.1 to.2).map (fun e => (cn.impl, e))
+               else st.2)
+
+def runOps (g : Cfg) (st : World × IdLog) (ops : List Op) : World × IdLog := ops.foldl (histStep g) st
+
+/-- every logged id is the rendering of a number below the present counter of its implementation
+object, and no (implementation object, id) pair is logged twice -/
+def HistInv (fmt : List Piece) (impls : List Impl) (log : IdLog) : Prop :=
+  log.Nodup ∧ ∀ i e, (i, e) ∈ log →
+    ∃ im n v, impls[i]? = some im ∧ im.ctr = some n ∧ v < n ∧ e = some (render im.cp fmt v)
+
+theorem HistInv.advance {fmt : List Piece} (hinj : ∀ cp a b, render cp fmt a = render cp fmt b → a = b)
+    {impls : List Impl} {log : IdLog} (H : HistInv fmt impls log) (i n n' : Nat) (im : Impl)
+    (hi : impls[i]? = some im) (hn : im.ctr = some n) (hle : n ≤ n') (new : List (Option (List Char)))
+    (hnd : new.Nodup) (hnew : ∀ e, e ∈ new → ∃ v, n ≤ v ∧ v < n' ∧ e = some (render im.cp fmt v)) :
+    HistInv fmt (setImpl impls i { im with ctr := some n' }) (log ++ new.map (fun e => (i, e))) := by
+  obtain ⟨hN, hB⟩ := H
+  have hlt : i < impls.length := by
+    apply Classical.byContradiction
+    intro hge
+    rw [List.getElem?_eq_none (by omega)] at hi; cases hi
+  constructor
+  · rw [List.nodup_append]
+    refine ⟨hN, nodup_map_of_inj _ (fun a b h => by cases h; rfl) _ hnd, ?_⟩
+    intro a ha b hb hab
+    subst hab
+    obtain ⟨e, he, rfl⟩ := List.mem_map.mp hb
+    obtain ⟨im0, n0, v0, h1, h2, h3, h4⟩ := hB i e ha
+    rw [hi] at h1; cases h1
+    rw [hn] at h2; cases h2
+    obtain ⟨v, hv1, _, hv3⟩ := hnew e he
+    rw [h4] at hv3
+    have := hinj _ _ _ (Option.some.inj hv3)
+    omega
+  · intro j e hje
+    rcases List.mem_append.mp hje with h | h
+    · obtain ⟨im0, n0, v0, h1, h2, h3, h4⟩ := hB j e h
+      by_cases hj : j = i
+      · subst hj
+        rw [hi] at h1; cases h1
+        rw [hn] at h2; cases h2
+        exact ⟨{ im with ctr := some n' }, n', v0, by simp [setImpl, hlt], rfl, by omega, h4⟩
+      · exact ⟨im0, n0, v0, by simp [setImpl, List.getElem?_set_ne (Ne.symm hj), h1], h2, h3, h4⟩
+    · obtain ⟨e', he', hee⟩ := List.mem_map.mp h
+      cases hee
+      obtain ⟨v, _, hv2, hv3⟩ := hnew e he'
+      exact ⟨{ im with ctr := some n' }, n', v, by simp [setImpl, hlt], rfl, hv2, hv3⟩
+
+theorem HistInv.append_impl {fmt : List Piece} {impls : List Impl} {log : IdLog}
+    (H : HistInv fmt impls log) (x : Impl) : HistInv fmt (impls ++ [x]) log := by
+  refine ⟨H.1, ?_⟩
+  intro i e hie
+  obtain ⟨im, n, v, h1, h2, h3, h4⟩ := H.2 i e hie
+  have hlt : i < impls.length := by
+    apply Classical.byContradiction
+    intro hge
+    rw [List.getElem?_eq_none (by omega)] at h1; cases h1
+  exact ⟨im, n, v, by rw [List.getElem?_append_left hlt]; exact h1, h2, h3, h4⟩
+
 end Interleave
